@@ -7,7 +7,7 @@ d = f'/verif/seeded/{name}'
 r = json.load(open(d + '/run.json'))
 m = {"breaks_property": breaks, "needs_to_manifest": needs, "confirmed_in_scratch_worktree": r['confirmed'],
      "what_was_run": r['ran'], "checks_run_against_it": r['checks'], "detected_by": r['detected_by'],
-     "origin": "independent sub-agent given only the property text and a scratch worktree"}
+     "first_evaluation": r.get("first_evaluation"), "origin": "independent sub-agent given only the property text and a scratch worktree"}
 if note:
     m['note'] = note
 json.dump(m, open(d + '/meta.json', 'w'), indent=1)
